@@ -270,7 +270,7 @@ package lexer
 //@        && !(dirKeyAt(l.input, old(l.pos)) && byteAt(l.input, old(l.pos)-1) != '\\') ==> result.Type == token.HTML
 //@   goal text-mode-code: old(l.isHTML) && result.Type != token.HTML && result.Type != token.EOF
 //@        ==> bracesAt(l.input, old(l.pos)) || dirKeyAt(l.input, old(l.pos))
-//@   goal eof-start: result.Type == token.EOF ==> l.startPos == l.pos
+//@   ensures eof-start: result.Type == token.EOF ==> l.startPos == l.pos
 //@   goal eof-nul: result.Type == token.EOF ==> l.pos >= len(l.input)
 //@   goal eof-at-end: result.Type == token.EOF ==> l.pos <= len(l.input)
 //@   goal gap-code: old(!l.isHTML) ==> forall(i, old(l.pos), l.startPos, isSpaceC(byteAt(l.input, i)))
